@@ -10,13 +10,19 @@ const char *CHK_RULE = "one case = one history: a table with prefix-related name
                        "a line typed a name that matches (exactly or as prefix) at least one currently disabled command; distinct by (table size, flag vector hash, line class, "
                        "selected command)";
 
-static struct { int ci, kind; bool var; } cb[32]; static int ncb; static int last_served = -1;
+static struct { int ci, kind; bool var; } cb[32]; static int ncb; static int last_served = -1; static int chain_left;
 static cat_return_state policy(struct hcall *h)
 {
         if (ncb < 32) { cb[ncb].ci = h->ci; cb[ncb].kind = h->kind; cb[ncb].var = false; } ncb++;
         if (h->fsm == FSM_A) last_served = h->ci;
         if (h->kind == K_RUN && strcmp(h->cmd->name, "#H") == 0) return CAT_RETURN_STATE_PRINT_CMD_LIST_OK;
-        return CAT_RETURN_STATE_OK;
+        if ((h->kind == K_READ || h->kind == K_TEST) && chain_left > 0 && chance(35)) {      /* answers in several parts, some of them empty: every part is another call of the same handler of the same command */
+                chain_left--; CNT("handler_chains");
+                if (chance(50)) return CAT_RETURN_STATE_NEXT;
+                if (chance(50) && h->max > 0) { h->data[0] = 0; *h->psize = 0; CNT("empty_response_parts"); }
+                return CAT_RETURN_STATE_DATA_NEXT;
+        }
+        return (h->kind == K_READ || h->kind == K_TEST) && chance(50) ? CAT_RETURN_STATE_DATA_OK : CAT_RETURN_STATE_OK;
 }
 static int vpolicy(int ci, int vi, int dir, size_t ws) { (void)vi; (void)ws; if (ncb < 32) { cb[ncb].ci = ci; cb[ncb].kind = dir; cb[ncb].var = true; } ncb++; return 0; }
 static char listed[64][24]; static int nlisted;
@@ -39,7 +45,7 @@ static void judge_line(void)
         fmt_bytes(last_line, sizeof last_line, INB, INLEN > 60 ? 60 : INLEN);
         int gate = r.cls == RL_REQ ? ref_gate(&r) : RG_ERROR;
         snprintf(note, sizeof note, "reference: class %d err %d cmd %d kind %d implicit %d gate %d", r.cls, r.err, r.ci, r.kind, r.implicit, gate);
-        ncb = 0; nlisted = 0; out_reset(); units_reset(); w_save_vars(varsnap);
+        ncb = 0; nlisted = 0; chain_left = 3; out_reset(); units_reset(); w_save_vars(varsnap);
         if (run_quiet(quiet_bound()) < 0) { inconclusive("no quiescence (C15's subject)"); return; }
         CNT("lines");
         /* does the typed name touch a disabled command? (evidence) */
